@@ -11,6 +11,7 @@ import Sds.Proofs.Tables
 import Sds.Proofs.Round
 import Sds.Proofs.BitsMore
 import Sds.Proofs.GenFns
+import Sds.Proofs.GenEqBits
 
 namespace Sds.C17
 open Sds Outcome
@@ -229,5 +230,31 @@ theorem helpers_as_translated_from_source (m : Mode) (n v k : Nat) :
   ⟨GenFns.words_to_bytes_eq m n, GenFns.bytes_to_words_eq m n, GenFns.round_up_to_word_bytes_eq m n,
    GenFns.words_to_bits_eq m n, GenFns.bits_to_words_eq m n, GenFns.round_up_to_word_bits_eq m n,
    GenFns.div_round_up_eq m v k, GenFns.split_offset_eq m n, GenFns.bit_offset_eq m v k⟩
+
+/-! **The remaining functions of `bits.rs`, translated statement by statement.**  `Generated/FnsBits.lean` is produced on
+every run by `tools/rs2lean.py` from the bodies of `low_set`, `low_set_unchecked`, `high_set`, `high_set_unchecked`,
+`bit_len`, `reverse_low`, `filler_value`, `read_int` and `write_int` (`let`, `if`/`else`, compound assignment to array
+elements, table reads, shifts with the overflow rule of the build mode; the bounds hooks are dropped).  The equations say
+that the code as it is NOW — both branches of `read_int` / `write_int`, the order of its reads and writes, its table
+lookups — is the model function that `read_after_write`, `write_frame`, … above are about.  Only `select` (whose two
+paths are tied by shape flags and whole-table obligations) is not translated statement by statement. -/
+theorem bits_functions_as_translated_from_source (m : Mode) (a : Array Word) (off width n bits : Nat) (w v : Word) (b : Bool)
+    (hoff : off < U64) :
+    Generated.gen_low_set m n = lowSetT n ∧
+    Generated.gen_low_set_unchecked m n = lowSetU n ∧
+    Generated.gen_high_set m n = highSetT n ∧
+    Generated.gen_high_set_unchecked m n = highSetU n ∧
+    Generated.gen_bit_len m w = ok (bitLen w) ∧
+    (1 ≤ bits → bits ≤ 64 → Generated.gen_reverse_low m w bits = ok (reverseLow w bits)) ∧
+    Generated.gen_filler_value m b = ok (fillerValue b) ∧
+    (width ≤ 64 → Generated.gen_read_int m a off width = readIntM a off width) ∧
+    Generated.gen_write_int m a off v width = writeIntM a off v width :=
+  ⟨GenEq.low_set_eq m n, GenEq.low_set_unchecked_eq m n, GenEq.high_set_eq m n, GenEq.high_set_unchecked_eq m n,
+   GenEq.bit_len_eq m w, GenEq.reverse_low_eq m w bits, GenEq.filler_value_eq m b,
+   fun hw => GenEq.read_int_eq m a off width hw hoff, GenEq.write_int_eq m a off v width hoff⟩
+
+/-- non-vacuity: the translated `write_int` / `read_int`, run on a straddling field, give the documented result -/
+example : (Generated.gen_write_int .checked #[0#64, 0#64] 60 0xFF#64 8 >>= fun a => Generated.gen_read_int .checked a 60 8)
+    = ok 0xFF#64 := by decide
 
 end Sds.C17
